@@ -1,8 +1,8 @@
 CONSTANTS
   w1 = w1
   w2 = w2
-  Wakers = {w1}
-  Target <- TgtQ2
+  Wakers = {}
+  Target <- TgtNone
   Tasks = {"t1"}
   QCap = 1
   Mode = "external"
@@ -12,11 +12,11 @@ CONSTANTS
   WakeAfterPush = TRUE
   Overflow = FALSE
   Hosts <- BothHosts
-  Muts = {"none","flushSeesCompleted","drainAfterBlocking","repaired"}
-  Ops = {}
+  Muts = {"noTimeout"}
+  Ops = {"o1"}
   Timers = {"s1"}
-  Jobs = {"j1"}
-  Owner <- OwnQ2
+  Jobs = {}
+  Owner <- OwnQT
   AnyTurn = TRUE
 SPECIFICATION XSpec
-INVARIANTS XTypeOK PendingBound TypeOK RealSafe RepFlushSeesCompleted RepDrainAfterBlocking RepBoth
+INVARIANTS XTypeOK PendingBound TypeOK CtlNoTimeout
